@@ -8,6 +8,61 @@ ALL = [f'C{i:02d}' for i in range(1, 21)]
 
 # id -> (technique, level text, level note, design section)
 CHECKS = {
+    'C01': ('Lean 4 proof: QueueScheduling as a transition system (one constructor per synchronisation primitive of the '
+            'master and of every worker); safety invariant InvA preserved by every step, hence in every reachable state of '
+            'every interleaving + differential correspondence: the real execute_tasks / WorkerThread / Env run under a '
+            'controlled (baton-passing) scheduler and the compiled model replays the recorded schedule step by step',
+            'For every acyclic hard/soft graph (tasks in topological order), every worker count, every task outcome '
+            '(success, exception, FAILED, malformed return) and every interleaving: dep_safe_inv — what a task finds in '
+            'the environment for each dependency at the instant its do() is called is a final entry, and a DONE one '
+            'carries its results and clocks (InvA_step, InvA_init, InvA_reach; seen_is_snapshot). Tied to queue.py on '
+            'every run: random, PCT and replayed schedules of the real threads, state digest and enabled set compared '
+            'with the model after every step; the probe tasks record what they observe.',
+            'Trusted: Lean kernel + standard axioms; the controlled scheduler (harness/vcheck/ctlsched.py) decides which '
+            'primitive operations are scheduling points (queue put/get/task_done/join, Condition, Env lock, Thread '
+            'start/join, time.time) and assumes sequential consistency of everything between two of them (the GIL); '
+            'topological_sort is modelled as "tasks are numbered in a topological order" (its output is checked by the '
+            'C16 machinery).',
+            '10 (scheduler)'),
+    'C02': ('Lean 4 proof: final status of every task = a recursive specification over the graph (spec), by an '
+            'invariant over all interleavings (InvB) on top of the safety and counting invariants; corollaries: '
+            'schedule/worker-count independence, soft dependencies never block + the same differential correspondence '
+            'under the controlled scheduler',
+            'final_status_eq_spec: in every terminal state of every execution from an empty environment every task is in '
+            'exactly one final state and it is spec c t (SKIPPED iff a hard dependency ended FAILED or SKIPPED, else '
+            'DONE/FAILED according to the task result; exceptions and malformed returns give FAILED); '
+            'schedule_independent (two executions, different worker counts and interleavings, same status map); '
+            'soft_never_blocks. NOT proved: "each task body is executed at most once" (exec_count) is checked by the '
+            'oracle on the real code on every run, not yet a theorem.',
+            'Trusted: as C01; the result classification of WorkerThread.check_result is modelled by Outcome '
+            '(done / raises / failed / malformed), compared with the code on generated return values.',
+            '10 (scheduler)'),
+    'C03': ('Lean 4 proof: counting/liveness invariant InvC (tasks in flight + unfinished counter + sentinel and wake-up '
+            'bookkeeping) preserved by every step: no reachable non-terminal state is stuck (no_deadlock), terminal '
+            'states are clean (clean_exit), the call raises iff the graph is cyclic and then no worker was started '
+            '(raises_iff_cyclic) + differential correspondence under the controlled scheduler incl. deadlock detection',
+            'no_deadlock: in every reachable state either the call has returned/raised with all workers exited, or some '
+            'thread has an enabled step (lost wake-ups, missed notify, join on a non-empty queue are all excluded for '
+            'every interleaving); clean_exit: queue empty, unfinished = 0, all workers exited, so a second call on the '
+            'same backend starts clean. NOT proved: termination (every execution is finite) — a decreasing measure is '
+            'not formalised; the controlled runs bound the step count instead (a run that exceeds it is reported).',
+            'Trusted: as C01; Condition modelled without spurious wake-ups (the code re-checks nothing after wait: a '
+            'spurious wake-up only causes an extra pass, covered by the mWake-independent invariants but not exhibited).',
+            '10 (scheduler)'),
+    'C04': ('Lean 4 proof: clock invariant InvD (decided+final entries are frozen; a task starts strictly after the end of '
+            'each DONE dependency; recorded clocks are in the past) preserved by every step from an arbitrary carried-over '
+            'environment + differential correspondence on histories of 2-5 runs (failures, recoveries, lost entries, new '
+            'tasks, stale clocks) under the controlled scheduler',
+            'rerun_consistent (first sentence of C04, full strength): for every carried-over environment satisfying '
+            'EnvOK/ClockOK, at return no task is DONE unless every DONE dependency ended before it started and no hard '
+            'dependency is FAILED/SKIPPED; rerun_envcons + EnvCons_sub: the condition is inherited by what the next run '
+            'starts from (history induction); decided_final_frozen. Second sentence (fresh_not_rerun: an up-to-date DONE '
+            'task whose transitive dependencies are DONE and not re-executed is not executed and its entry untouched) is '
+            'checked by the oracle on the real code on every run; theorem in progress.',
+            'Trusted: as C01; time.time() is modelled as a strictly increasing integer clock (each read is a scheduling '
+            'point); persistence between runs (write_env/read_env) is C14\'s model, here the carried-over Env is passed '
+            'in memory through merge_done_tasks.',
+            '10 (scheduler)'),
     'C17': ('Lean 4 proof: inverted index = direct scan (induction over items, keyword lists and filter chains) + '
             'differential correspondence of the compiled model with Browser on random chains',
             'All items / queries / chains of the model are covered by kernel-checked theorems (index_spec, '
